@@ -53,13 +53,15 @@ namespace occa {
     occa::scope getMapArrayScope(const baseFunction &fn) const {
       const int arrayLength = (int) length();
 
-      const int safeTileSize = std::min(
-        std::max(1, tileSize),
-        arrayLength
+      // Keep both at least 1 so that empty arrays don't divide by zero
+      const int safeTileSize = std::max(
+        1,
+        std::min(std::max(1, tileSize), arrayLength)
       );
-      const int safeTileIterations = std::min(
-        std::max(1, tileIterations),
-        (arrayLength + safeTileSize - 1) / safeTileSize
+      const int safeTileIterations = std::max(
+        1,
+        std::min(std::max(1, tileIterations),
+                 (arrayLength + safeTileSize - 1) / safeTileSize)
       );
 
       std::string tileForLoop;
@@ -156,9 +158,10 @@ namespace occa {
         ? 16
         : tileIterations
       );
-      const int safeTileIterations = std::min(
-        defaultTileIterations,
-        (arrayLength + safeTileSize - 1) / safeTileSize
+      const int safeTileIterations = std::max(
+        1,
+        std::min(defaultTileIterations,
+                 (arrayLength + safeTileSize - 1) / safeTileSize)
       );
 
       const int localReductionSize = safeTileSize * safeTileIterations;
